@@ -485,3 +485,83 @@ Proof.
   pose proof (IndexSelect32_exact ws) as H. unfold IndexSelect32 in H. rewrite H.
   now rewrite IndexRank64_exact.
 Qed.
+
+(** * with the indexes as the index builders return them *)
+Theorem Select32_indexed ws sidx i : words_ok ws -> IndexSelect32 ws = Some sidx ->
+  0 <= i < zlen (all_ones ws) ->
+  Select32 ws sidx i = Some (spec_Select ws i).
+Proof.
+  intros Hok Hs Hi. rewrite IndexSelect32_exact in Hs. injection Hs as <-.
+  now apply Select32_exact.
+Qed.
+
+Theorem Select32R64_indexed ws sidx ridx i : words_ok ws -> IndexSelect32R64 ws = Some (sidx, ridx) ->
+  0 <= i < zlen (all_ones ws) ->
+  Select32R64 ws sidx ridx i = Some (spec_Select ws i).
+Proof.
+  intros Hok Hs Hi. rewrite IndexSelect32R64_exact in Hs by exact Hok.
+  unfold spec_IndexSelect32R64 in Hs. injection Hs as <- <-.
+  now apply Select32R64_exact.
+Qed.
+
+(** * corollaries: select is inverse to rank, the selected bit is 1, and the second
+      component is the position where the rank becomes [i + 1] *)
+Lemma spec_Select_fst ws i : 0 <= i < zlen (all_ones ws) ->
+  let a := fst (spec_Select ws i) in
+  0 <= a < 64 * zlen ws /\ rank1z (flat ws) a = i /\ bitz (flat ws) a = true.
+Proof.
+  intros Hi a. unfold zlen in Hi.
+  assert (Ha : nth_error (all_ones ws) (Z.to_nat i) = Some a)
+    by (apply nth_error_nth_Some; lia).
+  destruct (all_ones_nth ws _ a Ha) as (H0 & Hlt & Hr & Hb & _).
+  unfold zlen, rank1z, bitz. repeat split; try lia.
+  now apply nth_error_nth.
+Qed.
+
+Lemma spec_Select_snd ws i : 0 <= i < zlen (all_ones ws) ->
+  let a := fst (spec_Select ws i) in
+  let b := snd (spec_Select ws i) in
+  a < b <= 64 * zlen ws /\ rank1z (flat ws) b = i + 1 /\
+  (b < 64 * zlen ws -> bitz (flat ws) b = true).
+Proof.
+  intros Hi a b. destruct (spec_Select_fst ws i Hi) as (Ha & Hra & _). fold a in Ha, Hra.
+  assert (Hb : 0 <= b <= 64 * zlen ws /\ rank1z (flat ws) b = i + 1 /\
+               (b < 64 * zlen ws -> bitz (flat ws) b = true)).
+  { unfold b, spec_Select. cbv zeta. cbn [snd]. unfold zlen in *.
+    destruct (Z.ltb_spec (i + 1) (Z.of_nat (length (all_ones ws)))) as [Hlt|Hge].
+    - assert (Hn : nth_error (all_ones ws) (Z.to_nat (i + 1)) = Some (nth (Z.to_nat (i + 1)) (all_ones ws) 0))
+        by (apply nth_error_nth_Some; lia).
+      destruct (all_ones_nth ws _ _ Hn) as (H0 & Hl & Hr & Hbit & _).
+      unfold rank1z, bitz. repeat split; try lia. intros _. now apply nth_error_nth.
+    - unfold rank1z. replace (Z.to_nat (64 * Z.of_nat (length ws))) with (64 * length ws)%nat by lia.
+      rewrite rank1_words_all. unfold zlen. repeat split; lia. }
+  destruct Hb as (Hb0 & Hrb & Hbb). repeat split; try assumption; try lia.
+  destruct (Z.lt_ge_cases a b) as [|Hge]; [assumption|exfalso].
+  unfold rank1z in *. pose proof (rank1_mono (flat ws) (Z.to_nat b) (Z.to_nat a) ltac:(lia)). lia.
+Qed.
+
+(** [Rank64] (the model of the library's own rank) applied to the result of [Select32] *)
+Theorem Rank64_Select32 ws tr sidx i a b : words_ok ws -> IndexSelect32 ws = Some sidx ->
+  0 <= i < zlen (all_ones ws) -> Select32 ws sidx i = Some (a, b) ->
+  Rank64 ws (IndexRank64 ws tr) a = Some (i, 1).
+Proof.
+  intros Hok Hs Hi Hsel. rewrite (Select32_indexed ws sidx i Hok Hs Hi) in Hsel.
+  injection Hsel as Ea Eb.
+  pose proof (spec_Select_fst ws i Hi) as HF. unfold spec_Select in HF. cbv zeta in HF.
+  cbn [fst] in HF. rewrite Ea in HF.
+  destruct HF as (Ha & Hr & Hb).
+  rewrite Rank64_exact by assumption. unfold spec_Rank. rewrite Hr, Hb. reflexivity.
+Qed.
+
+Theorem Rank64_Select32R64 ws tr sidx ridx i a b : words_ok ws ->
+  IndexSelect32R64 ws = Some (sidx, ridx) ->
+  0 <= i < zlen (all_ones ws) -> Select32R64 ws sidx ridx i = Some (a, b) ->
+  Rank64 ws (IndexRank64 ws tr) a = Some (i, 1).
+Proof.
+  intros Hok Hs Hi Hsel. rewrite (Select32R64_indexed ws sidx ridx i Hok Hs Hi) in Hsel.
+  injection Hsel as Ea Eb.
+  pose proof (spec_Select_fst ws i Hi) as HF. unfold spec_Select in HF. cbv zeta in HF.
+  cbn [fst] in HF. rewrite Ea in HF.
+  destruct HF as (Ha & Hr & Hb).
+  rewrite Rank64_exact by assumption. unfold spec_Rank. rewrite Hr, Hb. reflexivity.
+Qed.
